@@ -111,6 +111,7 @@ class LangServer:
                 continue
             setattr(self, k, v)
 
+        self.pp_defs = self._pp_defs_as_dict(self.pp_defs)
         self.sync_type: int = 2 if self.incremental_sync else 1
         self.post_messages = []
         self.FORTRAN_SRC_EXT_REGEX: Pattern[str] = create_src_file_exts_str(
@@ -1655,7 +1656,14 @@ class LangServer:
                     isinstance(i, str) for i in value
                 )
             elif isinstance(current, dict):  # pp_defs: mapping or list of names
-                valid = isinstance(value, (dict, list))
+                if isinstance(value, dict):
+                    valid = all(
+                        isinstance(i, (str, int, float)) for i in value.values()
+                    )
+                else:
+                    valid = isinstance(value, list) and all(
+                        isinstance(i, str) for i in value
+                    )
             else:
                 valid = True
             if not valid:
@@ -1723,11 +1731,23 @@ class LangServer:
 
     def _load_config_file_preproc(self, config_dict: dict) -> None:
         self.pp_suffixes = config_dict.get("pp_suffixes", self.pp_suffixes)
-        self.pp_defs = config_dict.get("pp_defs", self.pp_defs)
-        if isinstance(self.pp_defs, list):
-            self.pp_defs = {key: "" for key in self.pp_defs}
+        self.pp_defs = self._pp_defs_as_dict(config_dict.get("pp_defs", self.pp_defs))
 
         self.include_dirs = set(config_dict.get("include_dirs", self.include_dirs))
+
+    @staticmethod
+    def _pp_defs_as_dict(pp_defs) -> dict:
+        """Preprocessor definitions in the form the preprocessor works with,
+        whichever way they were given: a list of names defines empty macros, the
+        values of a mapping are macro bodies, i.e. text"""
+        if isinstance(pp_defs, dict):
+            return {
+                key: value if isinstance(value, str) else str(value)
+                for key, value in pp_defs.items()
+            }
+        if isinstance(pp_defs, (list, set, tuple)):
+            return {key: "" for key in pp_defs if isinstance(key, str)}
+        return {}
 
     def _resolve_globs_in_paths(self) -> None:
         """Resolves glob patterns in `excl_paths`, `source_dirs` and `include_dirs`.
